@@ -70,8 +70,12 @@ class C07(Prop):
         ips = rng.choice([1, 2, 3, 7, 1024])
         bs = rng.choice([2, 3, 4, 5, 256])
         r = rng.choice([1, 2, 3, 4, 5, 8, 10, 16, 40])
-        mode = rng.choice(["manual", "manual", "manual-multi", "manual-odd", "manual-big", "manual-many", "auto", "auto"])
+        mode = rng.choice(["manual", "manual", "manual-multi", "manual-odd", "manual-big", "manual-many", "auto", "auto", "auto-cluster"])
         izoom, maxz, manual = 160, 10, []
+        if mode == "auto-cluster":
+            # clusters of dense runs: level r is kept, level 4r has as many sections as level r and is left out,
+            # level 16r merges each cluster and is kept again (a kept level after a left-out one)
+            comp = 0; r = rng.choice([8, 10, 16]); ips = rng.choice([1, 2, 4])
         if comp and mode == "auto":
             mode = "manual"
         if mode == "manual":
@@ -85,6 +89,8 @@ class C07(Prop):
         elif mode == "manual-many":
             # more distinct sizes than the directory has slots (MAX_ZOOM_LEVELS = 10): the finest ten are kept
             manual = [rng.sample(range(1, 40), rng.choice([11, 12, 15])) + rng.choice([[], [0], [3]])]
+        elif mode == "auto-cluster":
+            izoom, maxz = r, rng.choice([3, 10])
         else:
             izoom, maxz = rng.choice([1, 2, 5, 10, r]), rng.choice([1, 3, 10])
         fmode = "nice" if rng.random() < 0.8 else "any"
@@ -93,7 +99,15 @@ class C07(Prop):
         sizes = []; inp = []; queries = []
         zl = [z for z in (manual[0] if manual else [izoom * 4 ** k for k in range(min(maxz, 5))] + [10, 40, 160]) if z > 0]
         for nm in names:
-            if mode == "auto":
+            if mode == "auto-cluster":
+                G = rng.choice([6, 10]); m = rng.choice([2, 3]); items = []
+                for g in range(G):
+                    base = 3 + g * (16 * r * 8)
+                    for j in range(m):
+                        p0 = base + j * 5 * r
+                        items += [(p0 + t, p0 + t + 1) for t in range(8)]
+                length = items[-1][1] + rng.choice([0, 5, 200])
+            elif mode == "auto":
                 # automatic selection keeps a level only if it is much smaller than the data: dense short values
                 n = rng.choice([20, 40, 60])
                 pos = rng.choice([0, 3]); items = []
